@@ -151,6 +151,7 @@ type Unit struct {
 	inDefer     int
 	witMemo     map[string]Val
 	iterState   *State
+	entryFacts  map[string]bool
 	witnessHint types.Type
 	witnessTyp  types.Type
 	curPos      token.Pos
